@@ -267,6 +267,9 @@ struct W {
   video_dirty: bool,
   upd_since_video: u32,
   quiescent: bool,
+  /// stage dispatch-relation-dma-in-flight: an OAM DMA from this page is armed (through the
+  /// bus) immediately before every case
+  dma_page: Option<u8>,
 }
 
 fn mem_digest(m: &MemoryAreas) -> u64 {
@@ -358,7 +361,7 @@ impl W {
     }
     let digest = mem_digest(&core.memory);
     let quiescent = quiescent_io(&core.memory.video_ram, &core.memory.oam_ram);
-    W { core, pristine, digest, small_dirty: true, video_dirty: true, upd_since_video: 0, quiescent }
+    W { core, pristine, digest, small_dirty: true, video_dirty: true, upd_since_video: 0, quiescent, dma_page: None }
   }
 
   fn full_reset(&mut self) {
@@ -428,6 +431,7 @@ fn exec(w: &mut W, via: usize, s: &St, touches_small: bool, touches_video: bool)
     w.video_dirty = false;
     w.upd_since_video = 0;
   }
+  let dma_page = w.dma_page;
   let core: &mut Core = &mut w.core;
   core.registers.ip = s.pc as u32;
   core.registers.sp = s.sp as u32;
@@ -437,6 +441,9 @@ fn exec(w: &mut W, via: usize, s: &St, touches_small: bool, touches_video: bool)
   core.memory.io.interrupt_flag = InterruptFlag::new(s.iflag);
   crate::mem::memory_write_byte(&mut core.memory as *mut MemoryAreas, 0xFFFF, s.ie);
   core.memory.oam_dma = None;
+  if let Some(page) = dma_page {
+    crate::mem::memory_write_byte(&mut core.memory as *mut MemoryAreas, 0xFF46, page);
+  }
   let mut o = Obs::default();
   o.t0 = core.memory.io.timer.verif_cycle_count();
   unsafe {
@@ -457,7 +464,9 @@ fn exec(w: &mut W, via: usize, s: &St, touches_small: bool, touches_video: bool)
       let p = std::ptr::addr_of!(verif_trace::BUF) as *const u32;
       for i in 0..n {
         let e = *p.add(i);
-        if e >> 24 == 1 {
+        // (the DMA engine's own stores into OAM are not the dispatch's: the SP values of that
+        // stage never push into OAM)
+        if e >> 24 == 1 && !(dma_page.is_some() && (0xFE00..=0xFE9F).contains(&((e >> 8) & 0xFFFF))) {
           if o.nw < 4 {
             o.w[o.nw] = (((e >> 8) & 0xFFFF) as u16, (e & 0xFF) as u8);
           }
@@ -480,6 +489,15 @@ fn exec(w: &mut W, via: usize, s: &St, touches_small: bool, touches_video: bool)
   o.iflag = core.memory.io.interrupt_flag.as_u8();
   o.ie = memory_read_byte(&core.memory as *const MemoryAreas, 0xFFFF);
   o.t1 = core.memory.io.timer.verif_cycle_count();
+  if dma_page.is_some() {
+    // the engine copied a byte per machine cycle of the step: put OAM back (the digest at the
+    // end of the SP's sweep still covers all of OAM)
+    core.memory.oam_dma = None;
+    for i in 0..16u16 {
+      let p = w.pristine[0xFE00 + i as usize];
+      poke_raw(&mut w.core.memory, 0xFE00 + i, p);
+    }
+  }
   o
 }
 
@@ -689,7 +707,7 @@ fn one(w: &mut W, ctx: &mut Ctx, via: usize, s: &St, model: &St, env: &Env, ts: 
 
 /// everything for one SP value
 fn sweep_sp(w: &mut W, ctx: &mut Ctx, sp: u16) {
-  let cls = sp_class(sp);
+  let cls = if w.dma_page.is_some() { format!("{}+oam-dma-in-flight", sp_class(sp)) } else { sp_class(sp) };
   let cls_i = sp_class_index(sp);
   let a_hi = sp.wrapping_sub(1);
   let a_lo = sp.wrapping_sub(2);
@@ -968,6 +986,42 @@ pub fn run(tier: &str) -> i32 {
   let mut c = c;
   for i in 0..crate::util::pool::NCOUNTERS {
     c[i] += c1[i];
+  }
+
+  // the same relation while the OAM DMA engine is busy: the rule makes no exception for it
+  let dma_sps: Vec<u16> = {
+    let clear = |sp: &u16| {
+      let (a, b) = (sp.wrapping_sub(1), sp.wrapping_sub(2));
+      !(0xFE00..=0xFF7F).contains(&a) && !(0xFE00..=0xFF7F).contains(&b)
+    };
+    if thorough {
+      (0..=0xFFFFu32).filter(|x| x % 0x11 == 0 || x & 0xFFF <= 2 || x & 0xFF == 0xA0).map(|x| x as u16).filter(clear).collect()
+    } else {
+      vec![0x0000u16, 0x0001, 0x0002, 0x2001, 0x8001, 0xA001, 0xC000, 0xC001, 0xC1A0, 0xD001, 0xDFF0, 0xE001, 0xFDFF, 0xFF82, 0xFFFE, 0xFFFF]
+    }
+  };
+  let dma_ref = &dma_sps;
+  let rd = run_pool(
+    dma_sps.len() as u64,
+    &PoolOpts { chunk: 1, bitmap_bits: 1 << 16, samples_per_child: 0, ..PoolOpts::default() },
+    |_| {
+      let mut w = W::new();
+      w.dma_page = Some(0xC1);
+      w
+    },
+    |w, case, ctx| sweep_sp(w, ctx, dma_ref[case as usize]),
+    |case, how| {
+      let sp = dma_ref[case as usize];
+      (format!("C07 crash={} sp={}+oam-dma-in-flight", how, sp_class(sp)), J::obj().set("case", J::obj().set("sp", J::s(format!("{:04X}", sp))).set("what", J::s("whole product of this SP with an OAM DMA armed"))))
+    },
+  );
+  let cd = rep.add_stage(
+    "dispatch-relation-dma-in-flight",
+    &format!("the dispatch-relation product again on {} SP values whose pushes land outside OAM and the device registers, with an OAM DMA from page C1 armed through the bus immediately before every case (the engine copies during the step; OAM is put back and digested)", dma_sps.len()),
+    rd,
+  );
+  for i in 0..crate::util::pool::NCOUNTERS {
+    c[i] += cd[i];
   }
 
   // charge consumed by the following update()
